@@ -65,6 +65,10 @@ CHECKS = {
  "C18": ("fault_enumeration", "racing conditional HTTP writers with unique-id appends + precondition header generator + concurrent file reader + strace crash/error enumeration of rewriteDescriptionFile",
    "K concurrent GET/PUT-If-Match writers per object against the real server: acknowledged appends present once, refused absent, at most one success per tag, exactly one winner for If-None-Match:* creation, stale deletes refused; generated If-Match/If-None-Match values against a restricted RFC 7232 reading (HTTP and the etagMatch shim); a plain reader decodes the group file continuously while it is rewritten; every file syscall of 11 library update shapes is killed on entry / failed with EIO, ENOSPC: a fresh process sees old or new, never partial. Held on the schedules and crash points enumerated.",
    "Process interruption at syscall granularity only; only the clear precondition cases are asserted; versions differ in size.", "5/C18"),
+
+ "C12": ("exploration", "canary-arena parser fuzzing with recover() + grammar-based hostile websocket / HTTP / RTP workloads against the real server in child processes with liveness canaries and crash signatures",
+   "(A) 2.5M-126M generated inputs per run into Keyframe, KeyframeDimensions, PacketFlags, RewritePacket and sdpfrag inside canary-filled arenas: no panic, length unchanged, canaries and foreign bytes intact. (B) every signalling message type x field mutation x 23 membership states (incl. 13 kinds of refused join, pipelined, concurrent), raw frames; (C) 31 path shapes x 9 methods x credentials x bodies, a third hand-written on a raw connection, WHIP session lives; (D) real SRTP sessions with hostile payloads of every codec: after each batch a canary client, a fresh join and a bystander are still served, every request got a status line, the server log has no recovered handler panic. Held on the inputs tried.",
+   "Load sensitivity of galene's 500 ms write deadline is handled by retrying state set-ups and re-checking bystander losses in a fresh state (recorded as an assumption).", "5/C12"),
 }
 
 NOT_YET = "check not built yet in this session (work in progress, see DESIGN.md section 9)"
